@@ -559,7 +559,11 @@ def rule_B4(tree: Tree) -> RuleResult:
     r.ob(sl == ["self.find_session_secrets()"], Finding("B4", "session:Session.generate_keys:secret-list", f"the secrets used must be those of find_session_secrets() (filtered by client random); found {sl}", m.line(gk.node)))
     # Decryptor(...) argument roles
     r.instances += 1
-    dc = next((c for c in body_walk(gk.node) if isinstance(c, ast.Call) and dotted(c.func) == "Decryptor"), None)
+    dcs = [c for c in body_walk(gk.node) if isinstance(c, ast.Call) and dotted(c.func) == "Decryptor"]
+    # every construction site (there is one; a conditional selection of an argument is analysed as one site per arm): the first deviating one is shown
+    dc = next((c for c in dcs if [src(a) for a in c.args] != ["cipher_suite['CryptoAlgo'][0]", "cipher_suite['Mode'][0]", "cipher_suite['MAC']", "keys", "self.tls_version",
+                                                               "cipher_suite['KeyLength']", "cipher_suite['MAC'].digest_size", "cipher_suite['TagLength']", "block_size",
+                                                               "self.extensions", "self.compression_method"]), dcs[0] if dcs else None)
     args = [src(a) for a in dc.args] if dc else []
     want = ["cipher_suite['CryptoAlgo'][0]", "cipher_suite['Mode'][0]", "cipher_suite['MAC']", "keys", "self.tls_version", "cipher_suite['KeyLength']", "cipher_suite['MAC'].digest_size",
             "cipher_suite['TagLength']", "block_size", "self.extensions", "self.compression_method"]
